@@ -337,7 +337,10 @@ class Host(HeaderElement):
 		if self.host.endswith(']') and self.host.startswith('['):
 			self.host = self.host[1:-1]
 		if self.port:
-			self.port = integer(self.port)
+			try:
+				self.port = integer(self.port)
+			except ValueError:  # int() refuses very long digit strings
+				raise InvalidHeader(_(u'Invalid Host header: %s'), self.value[:32])
 		if not self.hostname:
 			raise InvalidHeader(_(u'Invalid Host header: %s'), self.value)
 
